@@ -77,7 +77,10 @@ def run(ctx):
                 fl = ["pc", "ba", "i", "s", "f", "imr", "isr", "in_interrupt", "irq_total", "low_power", "kil", "key_fifo"]
                 first = [n for n, x, y in zip(fl, sa[j].split(","), sb[j].split(",")) if x != y] if j < len(sa) and j < len(sb) else ["length"]
                 keys = any(t.split(":")[1].startswith(("key", "rel")) for t in l.split(" ")[8].split(",") if ":" in t)
-                ctx.report([core, "future_differs_after_identical_visible_state", "+".join(first), "matrix_keys" if keys else "no_matrix_keys"],
+                # recorded Rust finding (the key-interrupt latch is not restored): the first visible difference is the KEYI status bit,
+                # alone or together with the interrupt it causes in the same step
+                fsig = "isr" if (core == "rs" and keys and "isr" in first) else "+".join(first)
+                ctx.report([core, "future_differs_after_identical_visible_state", fsig, "matrix_keys" if keys else "no_matrix_keys"],
                            f"snapshot at step {k}: continuation differs from step +{j + 1} in {first}: original {sa[j] if j < len(sa) else None} restored {sb[j] if j < len(sb) else None}", cx)
             elif parts["DA"] != parts["DB"]:
                 cells = sorted({t.split(":")[0] for t in parts.get("DIFF", "-").split(",") if ":" in t}) or ["unknown"]
